@@ -23,7 +23,7 @@ const ALL_CAPS: u32 = frames::CAP_20 | frames::CAP_40 | frames::CAP_50 | frames:
 fn level(t: Tier) -> Level {
     Level {
         category: "model_checking",
-        rule: if t.thorough() { "model GATE (32 actions: DF11 CA 0/3/4/5/7, DF17, DF20/21 with empty MB, five BDS 1,7 advertisements, 1,7 with a reserved bit, 2,0, three 3,0, valid 4,0, 5,0 right/left turn, 6,0 climb/descent, 5,0 with a status bit clear, 4,0 with a reserved bit, an ADS-B velocity squitter, a slow 5,0, two replies with flight status 5/7, bystander) all orders to depth 5 x {default,-R,-U,-U -R}; register sweeps: every value field of 4,0/5,0/6,0 over its whole range x 3 baselines, the full GS x TAS product, all 32 status-bit subsets, every single reserved bit, BDS 1,7 capability words (single bits, stride), under open and closed gates" } else { "model GATE (32 actions: DF11 CA 0/3/4/5/7, DF17, DF20/21 with empty MB, five BDS 1,7 advertisements, 1,7 with a reserved bit, 2,0, three 3,0, valid 4,0, 5,0 right/left turn, 6,0 climb/descent, 5,0 with a status bit clear, 4,0 with a reserved bit, an ADS-B velocity squitter, a slow 5,0, two replies with flight status 5/7, bystander) all orders to depth 4 x {default,-R,-U,-U -R}; register sweeps: every value field of 4,0/5,0/6,0 over its whole range x 3 baselines, all 32 status-bit subsets, every single reserved bit, BDS 1,7 capability words (single bits, stride), under open and closed gates" },
+        rule: if t.thorough() { "model GATE (38 actions: DF11 CA 0/3/4/5/7, DF17, DF20/21 with empty MB, five BDS 1,7 advertisements, 1,7 with a reserved bit, 2,0, three 3,0, valid 4,0, 5,0 right/left turn, 6,0 climb/descent, 5,0 with a status bit clear, 4,0 with a reserved bit, an ADS-B velocity squitter, a slow 5,0, two replies with flight status 5/7, five BDS 1,0 reports, a westbound 5,0 shaped like a 6,0, bystander) all orders to depth 5 x {default,-R,-U,-U -R}; register sweeps: every value field of 4,0/5,0/6,0 over its whole range x 3 baselines, the full GS x TAS product, all 32 status-bit subsets, every single reserved bit, BDS 1,7 capability words (single bits, stride), under open and closed gates" } else { "model GATE (38 actions: DF11 CA 0/3/4/5/7, DF17, DF20/21 with empty MB, five BDS 1,7 advertisements, 1,7 with a reserved bit, 2,0, three 3,0, valid 4,0, 5,0 right/left turn, 6,0 climb/descent, 5,0 with a status bit clear, 4,0 with a reserved bit, an ADS-B velocity squitter, a slow 5,0, two replies with flight status 5/7, five BDS 1,0 reports, a westbound 5,0 shaped like a 6,0, bystander) all orders to depth 4 x {default,-R,-U,-U -R}; register sweeps: every value field of 4,0/5,0/6,0 over its whole range x 3 baselines, all 32 status-bit subsets, every single reserved bit, BDS 1,7 capability words (single bits, stride), under open and closed gates" },
         assumptions: vec![
             "oracle (refmodel/bds.rs): an MB-derived field group changes only if the reference gate of the implementation's own pre-state allows it (CA >= 4 recorded or -R; for 4,0/5,0/6,0 the register advertised or -R) and the MB passes the reference validity of the register the group belongs to, and then equals the Doc 9871 decoding (floor or truncation for signed values); conversely a plausible register (every status bit set, every value field non-zero, limits as stated) that is not weakly valid as an earlier register must be decoded".into(),
             "BDS 4,0 mode/source status bits are left unconstrained in the only-if direction; inputs on which strong and weak validity of an earlier register disagree take the lenient branch (counted as ':may')".into(),
@@ -73,6 +73,13 @@ fn gate_actions() -> Vec<Action> {
     v.push(Action::line("DF20 BDS5,0 120 kt", &frames::df20(A, alt, frames::mb_bds50(&B50 { s_roll: 1, roll_sign: 0, roll: 28, s_trk: 1, trk_sign: 0, trk: 300, s_gs: 1, gs: 60, s_tar: 1, tar_sign: 0, tar: 8, s_tas: 1, tas: 58 }))));
     v.push(Action::line("DF20 FS5 BDS2,0 SPI", &frames::long_ap(20, frames::surv_bits(5, 0, 0, alt), frames::mb_bds20(frames::callsign_codes("SPI5")), A)));
     v.push(Action::line("DF21 FS7 BDS5,0", &frames::long_ap(21, frames::surv_bits(7, 0, 0, sq), valid_bds50(false), A)));
+    // BDS 1,0 data-link capability reports (every one of them leaves the listed parameters alone):
+    // with and without the "Mode S specific services" bit (MB 25), the GICB-changed toggle (MB 4 / frame 36)
+    for (n, mb) in [("plain", 0x10_0000_0000_0000u64), ("services", 0x10_0000_8000_0000), ("toggle", 0x10_1000_8000_0000), ("toggle2", 0x10_1000_0000_0000), ("all-ones", 0x10_FFFF_FFFF_FFFF)] {
+        v.push(Action::line(&format!("DF20 BDS1,0 {n}"), &frames::df20(A, alt, mb)));
+    }
+    // a westbound BDS 5,0 (240 kt) that also has every status bit of the 6,0 layout
+    v.push(Action::line("DF20 BDS5,0 west 240 kt (also 6,0-shaped)", &frames::df20(A, alt, frames::mb_bds50(&B50 { s_roll: 1, roll_sign: 0, roll: 29, s_trk: 1, trk_sign: 1, trk: 600, s_gs: 1, gs: 120, s_tar: 1, tar_sign: 0, tar: 9, s_tas: 1, tas: 118 }))));
     v.push(Action::line("B:DF11 CA5", &frames::df11(5, B, 0)));
     v.push(Action::line("B:DF20 BDS5,0", &frames::df20(B, alt, valid_bds50(false))));
     v
@@ -106,6 +113,8 @@ enum Prefix {
     Ca0,
     /// no DF11/DF17 ever: the row is created by a DF20 whose flight-status field is 5
     CreatedByFs5,
+    /// Open, then an ADS-B velocity squitter (450 kt) and two BDS 1,0 reports with different toggle bits
+    OpenAfterAdsbAnd10,
 }
 
 fn prefix_lines(p: Prefix, addr: u32) -> Vec<Vec<u8>> {
@@ -115,6 +124,13 @@ fn prefix_lines(p: Prefix, addr: u32) -> Vec<Vec<u8>> {
         Prefix::CaClosed => vec![frames::df11(3, addr, 0).hex().into_bytes()],
         Prefix::NotAdvertised => vec![frames::df11(5, addr, 0).hex().into_bytes(), frames::df20(addr, alt, frames::mb_bds17(frames::CAP_20)).hex().into_bytes()],
         Prefix::Ca0 => vec![frames::df11(0, addr, 0).hex().into_bytes()],
+        Prefix::OpenAfterAdsbAnd10 => vec![
+            frames::df11(5, addr, 0).hex().into_bytes(),
+            frames::df20(addr, alt, 0x10_0000_8000_0000).hex().into_bytes(),
+            frames::df20(addr, alt, frames::mb_bds17(ALL_CAPS)).hex().into_bytes(),
+            frames::df17(5, addr, frames::me_velocity(&frames::Vel { st: 1, dew: 0, vew: 451, dns: 0, vns: 1, vr: 5, ..Default::default() })).hex().into_bytes(),
+            frames::df20(addr, alt, 0x10_1000_0000_0000).hex().into_bytes(),
+        ],
         Prefix::CreatedByFs5 => vec![frames::long_ap(20, frames::surv_bits(5, 0, 0, alt), 0, addr).hex().into_bytes()],
     }
 }
@@ -310,7 +326,7 @@ fn run(ctx: &mut Ctx) {
     let mut job = 0u64;
     for (opts, relaxed) in [(&[][..], false), (&["-R"][..], true), (&["-U"][..], false)] {
         let cfg = Cfg::new(opts);
-        let prefixes: &[Prefix] = if relaxed { &[Prefix::Ca0, Prefix::Open] } else { &[Prefix::Open, Prefix::CaClosed, Prefix::NotAdvertised, Prefix::CreatedByFs5] };
+        let prefixes: &[Prefix] = if relaxed { &[Prefix::Ca0, Prefix::Open] } else { &[Prefix::Open, Prefix::CaClosed, Prefix::NotAdvertised, Prefix::CreatedByFs5, Prefix::OpenAfterAdsbAnd10] };
         for &prefix in prefixes {
             for df in [20u32, 21] {
                 if df == 21 && (opts.contains(&"-U") || prefix != Prefix::Open) {
@@ -346,6 +362,7 @@ fn replay(ctx: &mut Ctx, case: &Value) {
             Some("NotAdvertised") => Prefix::NotAdvertised,
             Some("Ca0") => Prefix::Ca0,
             Some("CreatedByFs5") => Prefix::CreatedByFs5,
+            Some("OpenAfterAdsbAnd10") => Prefix::OpenAfterAdsbAnd10,
             _ => Prefix::Open,
         };
         let relaxed = o.contains(&"-R");
